@@ -108,7 +108,6 @@ class elf_hash:
     returns = Int
     loops = {0: dict(invariant=["h == elfhash32(name, $k)", "0 <= h", "h < 2**28"])}
     native_seeds = [dict(name=b'\xfc<=$\xbc7\xf0'), dict(name=b'\xff' * 9)]
-    solver = dict(first='cvc5', timeout_ms=90000)     # div/mod-heavy step lemma: cvc5 needs ~5 s, z3 ~40 s
     ensures = ["result == elfhash32(name, len(name))"]
 
 
